@@ -111,6 +111,15 @@ theorem resolve_override (p : Palette) (o : Overrides) (c : Code) :
     resolve (applyOverrides p o) c.name = (o c).getD (p.get c) := by
   rw [resolve_code, applyOverrides_get]
 
+/-! ### source-level overrides (`vars.d2-config.theme-overrides`) -/
+
+/-- `d2compiler.compileThemeOverrides` stores the value written under key `<code>` (any case, the switch is over the
+    upper-cased key) in the `ThemeOverrides` field of that same code — for all 18 codes (regenerated switch table) -/
+theorem config_override_cases (c : Code) : configOverrideCases.lookup c.name = some c := by
+  cases c <;> decide
+
+theorem config_override_cases_sound : ∀ r ∈ configOverrideCases, r.1 = r.2.name := by decide
+
 /-! ### the stylesheet -/
 
 theorem sheetRules_mem (c : Code) : (c.name, c) ∈ sheetRules := by
